@@ -210,6 +210,71 @@ class PyLowerer:
             return f.attr, True
         return ast.unparse(f), False
 
+    def _str_format(self, n, loc):
+        """'...{}...{name}...'.format(a, name=b) with a constant template is the f-string with the same holes (format
+        specs and conversions are dropped, as for f-strings); anything fancier (attribute / index fields, nested fields,
+        *args) is left as an ordinary call."""
+        import string
+        if any(isinstance(a, ast.Starred) for a in n.args) or any(kw.arg is None for kw in n.keywords):
+            return None
+        kws = {kw.arg: kw.value for kw in n.keywords}
+        parts = []
+        auto = 0
+        try:
+            fields = list(string.Formatter().parse(n.func.value.value))
+        except ValueError:
+            return None
+        for lit, field, spec, _conv in fields:
+            if lit:
+                parts.append(E('str', lit, loc=loc))
+            if field is None:
+                continue
+            if spec and '{' in spec:
+                return None
+            if field == '':
+                if auto >= len(n.args):
+                    return None
+                parts.append(self.expr(n.args[auto]))
+                auto += 1
+            elif field.isdigit():
+                if int(field) >= len(n.args):
+                    return None
+                parts.append(self.expr(n.args[int(field)]))
+            elif field.isidentifier() and field in kws:
+                parts.append(self.expr(kws[field]))
+            else:
+                return None
+        return E('fstr', parts, loc=loc, raw=n)
+
+    def _percent_format(self, n, loc):
+        """'...%s...%d' % (a, b)  /  '...%s' % a  with a constant template -> the f-string with the same holes."""
+        import re
+        tmpl = n.left.value
+        if isinstance(n.right, ast.Tuple):
+            vals = list(n.right.elts)
+        elif isinstance(n.right, (ast.Dict, ast.Starred)):
+            return None
+        else:
+            vals = [n.right]
+        toks = re.split(r'(%%|%[-+ #0]*\d*(?:\.\d+)?[sdirxXfg])', tmpl)
+        parts = []
+        k = 0
+        for t in toks:
+            if t == '%%':
+                parts.append(E('str', '%', loc=loc))
+            elif t.startswith('%') and len(t) > 1:
+                if k >= len(vals):
+                    return None
+                parts.append(self.expr(vals[k]))
+                k += 1
+            elif '%' in t:
+                return None
+            elif t:
+                parts.append(E('str', t, loc=loc))
+        if k != len(vals):
+            return None
+        return E('fstr', parts, loc=loc, raw=n)
+
     def expr(self, n):
         loc = self.L(n)
         if isinstance(n, ast.Constant):
@@ -241,6 +306,10 @@ class PyLowerer:
                 return sub
             return E('un', op, sub, loc=loc)
         if isinstance(n, ast.BinOp):
+            if isinstance(n.op, ast.Mod) and isinstance(n.left, ast.Constant) and isinstance(n.left.value, str):
+                f = self._percent_format(n, loc)
+                if f is not None:
+                    return f
             return E('bin', BINOPS.get(type(n.op), '?'), self.expr(n.left), self.expr(n.right), loc=loc, raw=n)
         if isinstance(n, ast.BoolOp):
             op = '&&' if isinstance(n.op, ast.And) else '||'
@@ -260,6 +329,11 @@ class PyLowerer:
                 e = E('bin', '&&', e, p, loc=loc, raw=n)
             return e
         if isinstance(n, ast.Call):
+            if isinstance(n.func, ast.Attribute) and n.func.attr == 'format' and isinstance(n.func.value, ast.Constant) \
+                    and isinstance(n.func.value.value, str):
+                f = self._str_format(n, loc)
+                if f is not None:
+                    return f
             name, has_recv = self.callee(n.func)
             recv = self.expr(n.func.value) if has_recv else None
             args = [self.expr(a) for a in n.args]
